@@ -434,7 +434,9 @@ func gSentencesOf(g *grammar, tier string, seed uint64) ([]gSentence, map[string
 					// the list when it is read as a keyword must not do so when it is a quoted name, nor after SQL() printed it)
 					if l := gEnclosingList(a, s); l >= 0 {
 						for k, ca := range child.alts {
-							if len(ca.seq) == 1 && strings.HasPrefix(ca.seq[0].text, "`") && gIsKeywordLike(strings.Trim(ca.seq[0].text, "`")) {
+							// (round 3, seed C08h: also the UNQUOTED keyword-like words — a look-ahead that decides on the spelling of one
+							// token behind a comma must not cut a list in front of a column that merely is called like the next clause)
+							if len(ca.seq) == 1 && gIsKeywordLike(strings.Trim(ca.seq[0].text, "`")) {
 								slotNo++
 								if !thorough && slotNo%2 != int(seed%2) {
 									continue
